@@ -104,6 +104,9 @@ def boundary_fold(chk, repo, clause):
 def run(chk, repo, tier):
     from .common import no_hidden_state
     no_hidden_state(chk, repo, 'C06')
+    chk.clause('C06-o', 'products, merges, reductions and inserts leave their operands untouched (insert accumulates into out only)', 8)
+    from .common import operands_untouched
+    operands_untouched(chk, repo, 'C06-o', ['field.merge', 'field._merge', 'field.reduce', 'field._reduce', 'field.overlap', 'field.insert', 'field.Field.__mul__', 'field.Field._mul_array', 'field.Field._mul_scalar', 'field._mul_broadcast'], allow=[('field.insert', 'out')])
     chk.clause('C06-a', 'bounding-box folds start from an identity of the fold (extents may be negative)', 4)
     chk.clause('C06-b', 'extent identities; merge offset/shape/slices consistent with the bounding box', 14)
     chk.clause('C06-c', 'insert alignment invariant on all clipping paths (both axes)', 5)
